@@ -52,6 +52,8 @@ impl MT196 {
         let field_11 = parser.parse_optional_field::<Field11>("11")?;
         let field_79 = parser.parse_optional_field::<Field79>("79")?;
 
+        crate::parser::utils::verify_parser_complete(&parser)?;
+
         Ok(MT196 {
             field_20,
             field_21,
